@@ -1,14 +1,14 @@
-\* quick, exhaustive: every sequence of <= 2 merge sets of <= 2 indices out of <= 4, condense or not
+\* quick, exhaustive: every sequence of <= 2 merge sets of <= 3 indices out of <= 4, condense or not
 SPECIFICATION Spec
 CONSTANTS
   MaxN = 4
   MaxSets = 2
-  MaxLen = 2
-  Mutant = "none"
+  MaxLen = 3
+  Mutant = "merge-max"
 INVARIANT TypeOK
 INVARIANT Downwards
 INVARIANT RootsAreReps
 INVARIANT Result
 INVARIANT Docstring
-INVARIANT EmitDone
+
 CHECK_DEADLOCK FALSE
